@@ -276,11 +276,13 @@ func (e *Exec) builtin(st *State, fr *Frame, bi *ssa.Builtin, args []Value, x *s
 		n := minInt(dst.Len, src.Len)
 		vals := make([]Value, n)
 		for i := 0; i < n; i++ {
+			e.recAccess(st, src.Arr.sub(src.Off+i), false, fr, x)
 			vals[i] = st.load(src.Arr.sub(src.Off + i))
 		}
 		for i := 0; i < n; i++ {
 			p := dst.Arr.sub(dst.Off + i)
 			e.monitorStore(st, p, fr, x)
+			e.recAccess(st, p, true, fr, x)
 			st.store(p, vals[i])
 		}
 		return e.i64(n), false
